@@ -89,8 +89,12 @@ type adgram struct {
 // ------------------------------------------------------------------------ world
 
 type world struct {
-	ipS     map[string]net.IP // listener address per mode
-	ipC     net.IP
+	ipS  map[string]net.IP // listener address per mode
+	ipC  net.IP
+	ipC2 net.IP // a second client host (key regime)
+	// host-to-host key of (server IA, client IA, server host, client host); nil:
+	// USE_MOCK_KEYS, the all-zero key for everybody
+	keyFn   func(srvIA, cliIA addr.IA, srvHost, cliHost netip.Addr) []byte
 	ipP     net.IP
 	ipD     net.IP
 	srvPort int
@@ -112,6 +116,8 @@ func (w *world) host(mode, label string, fam int) netip.Addr {
 	switch label {
 	case "C":
 		ip = w.ipC
+	case "C2":
+		ip = w.ipC2
 	case "S":
 		ip = w.ipS[mode]
 	case "D":
@@ -136,7 +142,10 @@ func (w *world) hostLabel(mode string, raw []byte) (string, int) {
 	if a.Is6() {
 		fam = 6
 	}
-	for _, l := range []string{"C", "S", "D", "P"} {
+	for _, l := range []string{"C", "S", "D", "P", "C2"} {
+		if l == "C2" && w.ipC2 == nil {
+			continue
+		}
 		if w.host(mode, l, fam) == a {
 			return l, fam
 		}
@@ -543,7 +552,7 @@ func parse(w []byte) *parsed {
 // authenticator as found on the wire: presence, SPI / algorithm class and
 // whether the MAC verifies (SPAO computation of scionproto's library under
 // the all-zero mock key) over the packet as it is
-func (p *parsed) authState() (state, spi, algo string, macok bool) {
+func (p *parsed) authState(w *world) (state, spi, algo string, macok bool) {
 	if p.authOpt == nil {
 		return "absent", "-", "-", false
 	}
@@ -566,8 +575,23 @@ func (p *parsed) authState() (state, spi, algo string, macok bool) {
 	if p.last != slayers.LayerTypeSCIONUDP {
 		return "bad", spi, algo, false
 	}
+	// the host-to-host key of the datagram as it is: a request (and anything that is
+	// not a response) travels client -> server, a response server -> client
+	key := zeroKey
+	if w != nil && w.keyFn != nil {
+		src, ok1 := netip.AddrFromSlice(p.sl.RawSrcAddr)
+		dst, ok2 := netip.AddrFromSlice(p.sl.RawDstAddr)
+		if !ok1 || !ok2 {
+			return "bad", spi, algo, false
+		}
+		if spi == "server" {
+			key = w.keyFn(p.sl.SrcIA, p.sl.DstIA, src, dst)
+		} else {
+			key = w.keyFn(p.sl.DstIA, p.sl.SrcIA, dst, src)
+		}
+	}
 	mac := make([]byte, 16)
-	_, err := spao.ComputeAuthCMAC(spao.MACInput{Key: zeroKey, Header: slayers.PacketAuthOption{EndToEndOption: p.authOpt},
+	_, err := spao.ComputeAuthCMAC(spao.MACInput{Key: key, Header: slayers.PacketAuthOption{EndToEndOption: p.authOpt},
 		ScionLayer: &p.sl, PldType: slayers.L4UDP, Pld: p.e2e.Payload}, make([]byte, spao.MACBufferSize), mac)
 	if err != nil {
 		return "bad", spi, algo, false
@@ -594,7 +618,17 @@ func remac(w []byte, spi uint32, key []byte) {
 }
 
 // port numbers -> model labels
-type portMap struct{ cp, srv, oth int }
+type portMap struct {
+	cp, srv, oth int
+	ias          map[addr.IA]string // per-case ISD-AS labels (key regime), nil: iaC / iaS
+}
+
+func (m portMap) ia(ia addr.IA) string {
+	if l, ok := m.ias[ia]; ok {
+		return l
+	}
+	return iaLabel(ia)
+}
 
 func (m portMap) label(p uint16) string {
 	switch int(p) {
@@ -618,7 +652,7 @@ func (w *world) project(mode string, wire []byte, pm portMap) (adgram, *parsed) 
 	if !p.ok {
 		return d, p
 	}
-	d.Sia, d.Dia = iaLabel(p.sl.SrcIA), iaLabel(p.sl.DstIA)
+	d.Sia, d.Dia = pm.ia(p.sl.SrcIA), pm.ia(p.sl.DstIA)
 	d.Sh, d.Sfam = w.hostLabel(mode, p.sl.RawSrcAddr)
 	d.Dh, d.Dfam = w.hostLabel(mode, p.sl.RawDstAddr)
 	d.Path = projectPath(p.sl.Path)
@@ -642,7 +676,7 @@ func (w *world) project(mode string, wire []byte, pm portMap) (adgram, *parsed) 
 	default:
 		d.L4 = "l4x"
 	}
-	d.Auth, d.Aspi, d.Aalgo, _ = p.authState()
+	d.Auth, d.Aspi, d.Aalgo, _ = p.authState(w)
 	if p.hasE2E {
 		if _, err := p.e2e.FindOption(optTS); err == nil {
 			d.TsOpt = true
